@@ -33,3 +33,71 @@ Definition c11_probe (np : list N) (num_t num_s isnum ts lit_ok : bool)
   (style_code st,
    emit is_print st n s,
    read_any tok_number p root col0 suffix text, q).
+
+(* ------------------------------------------------------------------ *)
+(* whole documents (Yaml/Doc.v) *)
+From Verif Require Import Yaml.Doc Yaml.Style.
+
+Definition oracle_tbl := list (str * (bool * (bool * bool))).
+Definition lookup (tbl : oracle_tbl) (sel : bool * (bool * bool) -> bool) (s : str) : bool :=
+  match find (fun e => str_eqb (fst e) s) tbl with
+  | Some e => sel (snd e)
+  | None => false
+  end.
+
+Section DocRisk.
+  Variable is_print : N -> bool.
+  Variable tok_number tok_isnumber tok_timestamp : str -> bool.
+  Variable lm : bool.
+
+  (* the string, written at this place, is in one of the classes in which the
+     encoder's choice or the pinned reader is known not to round-trip (style_gap,
+     quirk_merge, the literal-block reader deviations); over-approximated w.r.t.
+     the position.  Second component: the layout of the key is not modelled. *)
+  Definition str_risky (is_key multi : bool) (n : nat) (s : str) : bool * bool :=
+    let st := choose_style tok_number tok_isnumber tok_timestamp is_key multi s in
+    let plain := match st with Plain => true | _ => false end in
+    let lit := match st with Literal => true | _ => false end in
+    let sc := match st with SingleCue => true | _ => false end in
+    (style_gap is_print false st s || quirk_merge is_key plain s ||
+     (lit && (forallb (N.eqb c_nl) s ||
+              negb (match goccy_literal (emit_literal n s), parse_literal (n - 2) false (emit_literal n s) with
+                    | Some a, Some b => str_eqb a b
+                    | None, None => true
+                    | _, _ => false
+                    end))),
+     sc && existsb is_break s).
+
+  Definition orb2 (a b : bool * bool) : bool * bool := (fst a || fst b, snd a || snd b).
+
+  Fixpoint risky (in_list : bool) (c : nat) (d : data) : bool * bool :=
+    match d with
+    | DStr s => str_risky false (if in_list then lm else has_nl s) c s
+    | DSeq l => fold_right (fun e acc => orb2 (risky true (c + 2) e) acc) (false, false) l
+    | DMap l => fold_right (fun kv acc => orb2 (orb2 (str_risky true false 0 (fst kv)) (risky false (c + 2) (snd kv))) acc) (false, false) l
+    | _ => (false, false)
+    end.
+  Definition doc_risky (d : data) : bool * bool := if inline d then risky false 2 d else risky false 0 d.
+End DocRisk.
+
+(* [stream]: d is the list of the documents of a stream.
+   Result: the text the model writes, what the model reader makes of [text] (the
+   implementation's output), known-class flag, unmodelled-layout flag. *)
+Definition c11_doc (np : list N) (tbl : oracle_tbl) (lm stream : bool) (d : data) (text : str)
+  : str * option data * (bool * bool) :=
+  let is_print := fun c => negb (mem_chr c np) in
+  let tn := lookup tbl fst in
+  let ti := lookup tbl (fun x => fst (snd x)) in
+  let tt := lookup tbl (fun x => snd (snd x)) in
+  match stream, d with
+  | true, DSeq ds =>
+    (emit_stream is_print tn ti tt lm ds,
+     match read_stream tn text with
+     | Some [x] => Some x
+     | Some l => Some (DSeq l)
+     | None => None
+     end,
+     fold_right (fun e acc => orb2 (doc_risky is_print tn ti tt lm e) acc) (false, false) ds)
+  | _, _ =>
+    (Doc.emit_doc is_print tn ti tt lm d, read_doc tn text, doc_risky is_print tn ti tt lm d)
+  end.
